@@ -35,19 +35,51 @@ let render (per_file : (string * diag list) list) : string =
 
 let rec remove_nth i = function [] -> [] | x :: r -> if i = 0 then r else x :: remove_nth (i - 1) r
 
+(* the luahelper.json route: the case carries the file `luahelper.json` for the server (F: item) and, for this side, the same
+   settings as G: items (checks/c07.py writes both from one description):
+     G:f:<hex File text>:<hex name>,<hex name>...   one IgnoreFileVars entry: the names are configured-ignored in every file whose
+                                                    path CONTAINS the File text (the workspace root never does: checks/c07.py)
+     G:m:<hex name>,...                             IgnoreModules: configured-ignored in every file
+     G:l:<hex name>,...                             IgnoreLocalNoUseVars
+   The name sets are parameters of the theorems; every file is evaluated with ITS sets: IsIgnoreFileDefineVar is asked
+   directly after IsIgnoreNameVar at each of its three call sites, so "ignored name" of file p = the global list + the
+   names of ALL entries that match p. *)
+type c07_conf = { per_file : (string * string list) list; modules : string list; locnouse : string list }
+
+let contains (s : string) (sub : string) : bool =
+  let n = String.length s and m = String.length sub in
+  let rec go i = i + m <= n && (String.sub s i m = sub || go (i + 1)) in
+  go 0
+
+let parse_conf (line : string) : c07_conf =
+  let names s = if s = "-" || s = "" then [] else List.map (fun h -> string_of_bytes (bytes_of_hex h)) (String.split_on_char ',' s) in
+  List.fold_left (fun c it ->
+    match String.split_on_char ':' it with
+    | ["G"; "f"; pat; ns] -> { c with per_file = c.per_file @ [(string_of_bytes (bytes_of_hex pat), names ns)] }
+    | ["G"; "m"; ns] -> { c with modules = c.modules @ names ns }
+    | ["G"; "l"; ns] -> { c with locnouse = c.locnouse @ names ns }
+    | _ -> c) { per_file = []; modules = []; locnouse = [] } (split_ws line)
+
+let cfg_of (cf : c07_conf) (path : string) : cfg =
+  let extra = List.concat (List.map (fun (pat, ns) -> if contains ("/" ^ path) pat then ns else []) cf.per_file) in
+  { the_cfg with c_ignored = the_cfg.c_ignored @ List.map nm (cf.modules @ extra);
+                 c_locnouse = the_cfg.c_locnouse @ List.map nm cf.locnouse }
+
 let () = register "c07.diags" (fun line ->
   let cs = parse_srv_case line in
+  let cf = parse_conf line in
+  let cs = { cs with files = List.filter (fun (p, _) -> p <> "luahelper.json") cs.files } in
   oracle_used := false;
   let parsed = List.map (fun (p, bs) -> (p, parse_file gbk_oracle bs)) cs.files in
   if !oracle_used then "SKIP-ORACLE\t-\t-" else
   if List.exists (fun (_, r) -> match r with PSkip _ -> true | _ -> false) parsed then "SKIP-SYNTAX\t-\t-" else
   let blocks = List.map (fun (p, r) -> match r with PFile b -> (p, b) | PSkip _ -> assert false) parsed in
   if List.exists (fun (_, b) -> not (in_fragment b)) blocks then "SKIP-FRAGMENT\t-\t-" else
-  let gn = List.map (fun (_, b) -> gnames (s1_gmap (first_pass the_cfg b))) blocks in
+  let gn = List.map (fun (p, b) -> gnames (s1_gmap (first_pass (cfg_of cf p) b))) blocks in
   let all = List.concat gn in
   let others i = List.concat (remove_nth i gn) in
-  let model = List.mapi (fun i (p, b) -> (p, go_diags the_cfg b all (others i))) blocks in
-  let spec = List.mapi (fun i (p, b) -> (p, spec_diags the_cfg b (others i))) blocks in
+  let model = List.mapi (fun i (p, b) -> (p, go_diags (cfg_of cf p) b all (others i))) blocks in
+  let spec = List.mapi (fun i (p, b) -> (p, spec_diags (cfg_of cf p) b (others i))) blocks in
   let cls = ref [] in
   (* class multi_local_order: repaired (fixes/C07-multi-local-order.diff) - `multi_local_order b` no longer excuses a deviation *)
   (* the guards of C07_diags_agree_partial that come from the layout of the Locs (all implied by Laid, theorem
